@@ -5,7 +5,7 @@ LEVEL = "proof"
 META = {
     "level": "proof",
     "technique": "contract-based deductive verification: sidecar pre/postconditions, frames and loop invariants on the real functions, VCs generated from their AST, discharged by z3/cvc5",
-    "level_text": 'The render entry (_render_context, _populate_self_namespace) is verified to run the callable returned by the inheritance set-up (base-most body) with its context.',
+    "level_text": 'The render entry (_render_context, _populate_self_namespace) is verified to run the callable returned by the inheritance set-up (base-most body) with its context; _inherit_from appends a base at the end of the chain and the deeper answer wins; self.attr / next.attr / parent.attr answer with the first namespace toward the base whose module has the attribute, whatever its value; a named block is accepted only outside defs and calls and under a name not yet taken by another def or block of the template (visitBlockTag, _check_name_exists).',
     "level_note": 'Trusted: the pyvc encoding of Python semantics (DESIGN 3.1), z3/cvc5, assumed contracts listed in the evidence, the induction hypothesis for opaque render callables (R3). Native small-scope runs of the same contracts are bounded stand-ins, never counted as proved.',
 }
 
